@@ -3,6 +3,8 @@ C11 — the synthesised inverse circuit prepares exactly the given stabilizer st
 
 Correspondence: `inverse_circuit`, `canonical_form`, `clifford_from_stabilizer`, `get_clifford_tableau_from_graph` are run on
 the real implementation and on the Lean model (`stab.inv`, `stab.canon`, `stab.cliff`) and compared exactly (tableau and gate list).
+Completeness ("always ends in |0..0>", graphiq 74abae4) is a Lean theorem for every n (`C11.inverse_circuit_complete`); the run still
+evaluates it on every input, on the implementation's result and on the model's (`zero=`), as a regression.
 Direct oracle: (a) the tableau returned by `inverse_circuit` is |0..0> with all signs +; (b) the returned gate list, executed by the
 *verified* gate semantics of the model (`stab.runtab rev=1`, gates proved to be Pauli-group automorphisms with the textbook generator
 images) backwards from |0..0>, yields a valid Clifford tableau whose signed stabilizer group equals the input's (compared with an
@@ -19,7 +21,7 @@ LEVEL = "proof"
 TRUSTED_BASE = [
     "Lean 4.33 kernel",
     "hand-written model GraphiqModel/Model/StabTableau.lean tied to stabilizer.py/rep_conversion.py by this correspondence run",
-    "completeness of the six synthesis blocks (they always end in |0..0>) is not a theorem: the hypothesis `isZero` is evaluated by the model on every input",
+    "completeness of the synthesis IS a theorem (C11.inverse_circuit_complete / inverse_circuit_ends_in_zero, all n): it speaks about the model; `isZero` is still evaluated on the implementation's result (oracle a) and on the model's (`zero=`) for every input as a regression of the correspondence",
     "harness, line protocol, independent Python canonicaliser and dense simulator",
 ]
 ASSUMPTIONS = ["inputs are stabilizer tableaux of pure states (n independent commuting generators); dependent generators are the malformed stream"]
@@ -127,6 +129,10 @@ def flush(res, drv, pending):
         else:
             if su.reply_stab_tuple(r_inv) != su.stab_tuple(tab0) or r_inv.get("circ") != su.circ_token(circ):
                 res.exact_break("stab.inv", input=inp, impl=su.stab_args(tab0) + " circ=" + su.circ_token(circ), model=r_inv["_raw"][:1500])
+            if r_inv.get("zero") != "1":
+                # the compiled model did not end in |0..0> on a valid state: contradicts the theorem `C11.inverse_circuit_complete`
+                # (so the compiled code and the kernel definitions differ, or the input was not a valid state)
+                res.exact_break("stab.inv:model-not-zero", input=inp, impl="valid state", model=r_inv["_raw"][:600])
         # oracle (b): verified semantics run the implementation's gate list backwards from |0..0>
         if r_run["_status"] != "ok" or r_run.get("valid") != "1":
             fails.append(("inverse_circuit:reverse-run-invalid", "running the returned gate list backwards (verified semantics) fails or gives an invalid tableau",
